@@ -13,7 +13,7 @@ import itertools
 
 import numpy as np
 
-from vf import canon, models, scope
+from vf import canon, models, scope, env
 from vf.runner import digest
 
 ID = "C06"
@@ -130,6 +130,7 @@ def ckpt_item(name, steps, tuples, dt=DT):
     if name == "B":
         out["cover"].append("externals_unequal_width")
     for tup in tuples:
+        env.maybe_clear_caches(20000)
         out["evals"] += 1
         prod = int(np.prod(tup))
         wit = {"part": "ckpt", "model": name, "steps": steps, "tuple": list(tup), "dt": dt}
@@ -232,6 +233,7 @@ def history_item(name, prefix, depth):
     for L in range(len(prefix) + 1, depth + 1):
         hists += [tuple(prefix) + t for t in itertools.product(CALLS, repeat=L - len(prefix))]
     for h in hists:
+        env.maybe_clear_caches(20000)  # one item makes hundreds of integrate calls (each leaves ~180 memory mappings behind)
         m = copy.deepcopy(base)
         wit = {"part": "history", "model": name, "history": list(h)}
         for j, kind in enumerate(h):
